@@ -1,7 +1,7 @@
 ------------------------------ MODULE MC_Pager ------------------------------
 (* Scenario space for C07: TLC model-checks the pager machine of Pager.tla on  *)
 (* every scenario and prints each scenario once for the conformance harness.   *)
-EXTENDS Pager, Json
+EXTENDS Pager, Json, FiniteSets
 CONSTANTS Full        \* TRUE: the whole product space (thorough); FALSE: the covering subset (quick)
 
 \* rows are numbered 1, 2, 3 ... across pages, so that loss, duplication and reordering are all visible
@@ -17,9 +17,11 @@ Few == {<< >>, <<"overloaded">>, <<"drop">>, <<"delay">>, <<"invalid">>, <<"read
 \* after a connection was dropped the pool of that node may still be reconnecting: keep the later pages within what two
 \* remaining plan targets can absorb (this bounds the scenario space, it is not part of the property)
 NextFaults(fs) == Len(SelectSeq(fs, LAMBDA f : f \in {"overloaded", "bootstrapping", "unavailable", "server_error", "drop"}))
+\* (three nodes: every earlier page with a drop may have left one pool reconnecting, so pools possibly down + fail-overs needed <= 2)
+HasDrop(fs) == "drop" \in {fs[j] : j \in 1..Len(fs)}
+DropsBefore(faults, i) == Cardinality({h \in 1..(i - 1) : HasDrop(faults[h])})
 DropSafe(faults) == \A i \in 1..Len(faults) :
-   ("drop" \in {faults[i][j] : j \in 1..Len(faults[i])} => NextFaults(faults[i]) <= 1)
-   /\ ((\E h \in 1..(i - 1) : "drop" \in {faults[h][j] : j \in 1..Len(faults[h])}) => NextFaults(faults[i]) <= 1)
+   (HasDrop(faults[i]) \/ DropsBefore(faults, i) > 0) => (NextFaults(faults[i]) <= 1 /\ DropsBefore(faults, i) + NextFaults(faults[i]) <= 2)
 Consumers == {[mode |-> "all", n |-> 0], [mode |-> "slow", n |-> 0], [mode |-> "drop_after", n |-> 0], [mode |-> "drop_after", n |-> 1], [mode |-> "drop_after", n |-> 3]}
 Sc(sizes, faults, cons, kind, sv) == [pages |-> Number(sizes, 1), faults |-> faults, consumer |-> cons, kind |-> kind, sv |-> sv]
 NoFaults(n) == [i \in 1..n |-> << >>]
